@@ -206,6 +206,40 @@ class NTuple(tuple):
         return (NTuple, (self.nt_name, self.nt_fields, tuple(self), self.cls))
 
 
+class ModNS(dict):
+    """`globals()` of an analysed module: a name is looked up, when it is asked for, the way the module's own code would see it"""
+
+    def __init__(self, ev):
+        dict.__init__(self)
+        self.ev = ev
+
+    def _lookup(self, k):
+        if not isinstance(k, str):
+            raise KeyError(k)
+        n_ = ast.Name(id=k, ctx=ast.Load())
+        n_.lineno = n_.col_offset = 0
+        try:
+            return self.ev.e_Name(n_, {})
+        except AnalysisError:
+            raise KeyError(k)
+
+    def __contains__(self, k):
+        try:
+            self._lookup(k)
+            return True
+        except KeyError:
+            return False
+
+    def __getitem__(self, k):
+        return self._lookup(k)
+
+    def get(self, k, default=None):
+        try:
+            return self._lookup(k)
+        except KeyError:
+            return default
+
+
 class Obj:
     """a record with named attributes (atom entries, space-group objects)"""
 
@@ -318,7 +352,7 @@ def materialise(v):
 
 
 TAGS = ("npfunc", "function", "builtin", "import", "closure", "method", "module", "class", "boundmethod", "pyfunc", "regex", "rematch",
-        "partial", "attrgetter", "enumclass", "classattr", "foreignclass",
+        "partial", "attrgetter", "enumclass", "classattr", "foreignclass", "propertyobj",
         "ntclass", "type", "typeobj")
 
 
@@ -688,6 +722,62 @@ class Evaluator:
         self.np_log = []                  # (numpy function, [args], result) of opaque numpy calls (inv, qr, det, ...)
         self.hazards = []                 # dtype / aliasing hazards met on the analysed path
 
+    # ------------------------------------------------- one evaluator per module whose code is run
+    # one call depth for the whole family (a call may go through several modules and back)
+    @property
+    def depth(self):
+        return (self.__dict__.get("_root") or self).__dict__.get("_depth", 0)
+
+    @depth.setter
+    def depth(self, v):
+        (self.__dict__.get("_root") or self).__dict__["_depth"] = v
+
+    _OWN_KEYS = ("mod", "_root", "_depth", "_modconst", "_modconst_busy", "_family", "_home_evaluators", "_locals_stack", "_pre", "call_policy",
+                 "inline", "depth", "current_fn")
+
+    def evaluator_for(self, modobj):
+        """the evaluator that runs code written in `modobj` (a function sees the globals of the module it is written in): this
+        one for its own module; otherwise a member of this evaluator's family, which shares every policy, log and model with
+        the root.  Inside a PRIVATE module every function is an implementation detail and is seen through, except the ones
+        the root module imports back under the same name (those stay calls of the root's API: module_call); inside another
+        public module a module-level call is, for the rule watching the importer, a call of `module.name`."""
+        if modobj is None or modobj is self.mod or modobj.rel == self.mod.rel:
+            return self
+        root = getattr(self, "_root", None) or self
+        if modobj.rel == root.mod.rel:
+            root.depth = self.depth
+            return root
+        fam = root.__dict__.setdefault("_family", {})
+        sub = fam.get(modobj.rel)
+        if sub is None:
+            sub = object.__new__(type(root))
+            sub.mod = modobj
+            sub._root = root
+            sub.inline = True
+            sub.current_fn = None
+            fam[modobj.rel] = sub
+            base = modobj.rel.rsplit("/", 1)[-1]
+            if base.startswith("_") and not base.startswith("__"):
+                sub.call_policy = None
+            else:
+                dotted_mod = modobj.rel[:-3].replace("/", ".")
+
+                def forward(name, args, kwargs, node, dotted_mod=dotted_mod, root=root):
+                    if root.import_policy is not None:
+                        root.events.append(("import", "%s.%s" % (dotted_mod, name), list(args)))
+                        return root.import_policy("%s.%s" % (dotted_mod, name), args, kwargs, node)
+                    return NotImplemented
+                sub.call_policy = forward
+        for k, v in root.__dict__.items():
+            if k not in self._OWN_KEYS:
+                sub.__dict__[k] = v
+        sub.depth = self.depth
+        return sub
+
+    def home_evaluator(self, node):
+        """the evaluator for a function / class / lambda node (its defining module is recorded on the node when it is parsed)"""
+        return self.evaluator_for(getattr(node, "_xmod", None))
+
     # ------------------------------------------------------------------ API
     def call_function(self, name, args, kwargs=None):
         fn = self.mod.func(name)
@@ -732,6 +822,9 @@ class Evaluator:
             raise AnalysisError("E3: unknown keyword %s for %s" % (sorted(kwargs)[0], name))
 
     def _call_fn(self, fn, args, kwargs):
+        home = self.home_evaluator(fn)
+        if home is not self:
+            return home._call_fn(fn, args, kwargs)
         if self.depth >= self.max_depth:
             raise AnalysisError("E3: inlining depth exceeded at %s" % fn.name)
         params = [a.arg for a in fn.args.args]
@@ -775,6 +868,9 @@ class Evaluator:
     def run_body(self, fn, env):
         """execute a function body in a caller-supplied environment; returns
         (return value, final environment)"""
+        home = self.home_evaluator(fn)
+        if home is not self:
+            return home.run_body(fn, env)
         self.depth += 1
         ret = None
         try:
@@ -1315,12 +1411,15 @@ class Evaluator:
         if node.id in self.mod.np_alias:
             return ("module", "numpy")
         if node.id in self.mod.functions:
-            return ("function", node.id)
+            return ("function", node.id, self.mod.rel)
         if node.id in ("True", "False", "None"):
             return {"True": True, "False": False, "None": None}[node.id]
         if node.id in self.mod.imports:
             if self.mod.imports[node.id] in self.import_values:
                 return self.import_values[self.mod.imports[node.id]]
+            v_ = self.resolve_constant(self.mod.imports[node.id])
+            if v_ is not None:
+                return v_
             return ("import", self.mod.imports[node.id])
         if node.id == "__debug__":
             return True
@@ -1788,6 +1887,9 @@ class Evaluator:
 
     def call_closure(self, clo, args, kwargs, node):
         _k, fn, cenv = clo
+        home = self.home_evaluator(fn)
+        if home is not self:
+            return home.call_closure(clo, args, kwargs, node)
         env = dict(cenv)
         self.bind_signature(fn, list(args), kwargs, env, default_env=cenv, what="local function")
         if isinstance(fn, ast.Lambda):
@@ -1860,10 +1962,8 @@ class Evaluator:
             return NotImplemented
         if parts[-1] not in other.functions or not is_helper(other, parts[-1]):
             return NotImplemented
-        sub = type(self)(other)
-        sub.import_values = self.import_values
-        sub.depth = self.depth
-        return sub._call_fn(other.functions[parts[-1]], list(args), dict(kwargs))
+        fn_ = other.functions[parts[-1]]
+        return self.home_evaluator(fn_)._call_fn(fn_, list(args), dict(kwargs))
 
     def resolve_constant(self, dotted):
         """a module-level constant of another module of the repository (`atomlib.CONSTANT_SLOT`): evaluated in that module"""
@@ -1882,7 +1982,7 @@ class Evaluator:
         key = (rel, name)
         if key not in _CONST_CACHE:
             try:
-                _CONST_CACHE[key] = type(self)(other).module_constant(name)
+                _CONST_CACHE[key] = self.evaluator_for(other).module_constant(name)
             except AnalysisError:
                 _CONST_CACHE[key] = None
         v = _CONST_CACHE[key]
@@ -1986,6 +2086,9 @@ class Evaluator:
                 vals = [self.get_attribute(args[0], a_, node) for a_ in f[1]]
                 return vals[0] if len(vals) == 1 else tuple(vals)
             if kind == "function":
+                if len(f) > 2 and f[2] != self.mod.rel:
+                    from . import core as _core
+                    return self.evaluator_for(_core.module(f[2])).module_call(f[1], args, kwargs, node)
                 return self.module_call(f[1], args, kwargs, node)
             if kind == "npfunc":
                 return self.np_call(f[1], args, kwargs, node)
@@ -2113,6 +2216,13 @@ class Evaluator:
                                          , mode="eval").body, {"_k%d" % i: k for i, k in enumerate(keys)})
         if name == "functools.partial" and args:
             return ("partial", args[0], tuple(args[1:]), dict(kwargs))
+        if name == "types.MappingProxyType" and len(args) == 1 and isinstance(args[0], dict) and not kwargs:
+            return args[0]                  # a read-only view of the mapping: the same keys and values
+        if name in ("functools.lru_cache", "functools.cache", "functools.wraps"):
+            # memoising / metadata decorators return the function's own value
+            if len(args) == 1 and not kwargs and is_tagged(args[0]):
+                return args[0]
+            return ("closure", ast.parse("lambda _f: _f", mode="eval").body, {})
         if name == "operator.attrgetter" and args and all(isinstance(a_, str) and "." not in a_ for a_ in args):
             return ("attrgetter", tuple(args))
         if name == "functools.reduce" and 2 <= len(args) <= 3:
@@ -2219,6 +2329,11 @@ class Evaluator:
         return NotImplemented
 
     def module_call(self, name, args, kwargs, node):
+        root = getattr(self, "_root", None)
+        if root is not None and name in self.mod.functions and root.mod.functions.get(name) is self.mod.functions[name] \
+                and not is_helper(root.mod, name):
+            root.depth = self.depth
+            return root.module_call(name, args, kwargs, node)
         if is_helper(self.mod, name):
             # not an anchor of the pinned API: seen through, invisible to call policies and call logs
             return self._call_fn(self.mod.func(name), args, kwargs)
